@@ -746,8 +746,14 @@ fn oracle(f: F, o: Opts, img: &Img, enc: &[u8], wit: Option<&[u8]>, msgs: &mut V
                         }
                     };
                     if err > bound {
+                        let grid = match c.3 {
+                            Kind::Step(s) if s == STEP4 => "alpha4",
+                            Kind::Step(_) => "565",
+                            Kind::Exact => "bc4",
+                            Kind::Bc7c | Kind::Bc7a => "bc7",
+                        };
                         msgs.push(format!(
-                            "{clause}-{name}-bound: {tag} block={b} px={p} ch={} in={want} dec={got} bound={bound} blk={hex}",
+                            "{clause}-{name}-bound: grid={grid} {tag} block={b} px={p} ch={} in={want} dec={got} bound={bound} blk={hex}",
                             c.0
                         ));
                     }
